@@ -31,7 +31,9 @@ def memcheck_part(V, tier):
         for ek, frame, block in errors:
             V.violation("memcheck %s @ %s" % (ek, frame), "valgrind memcheck: %s while a %s handled a well-formed element / setter-built object" % (ek, "parser or serializer" if kind == "codec" else "codec"),
                         {"workload": kind, "worker": k, "valgrind": block})
-        if r["rc"] not in (0, 99):
+        if r["rc"] == 79:
+            V.inconc("memcheck %s worker %s: the harness's own watchdog fired under valgrind" % (kind, k))
+        elif r["rc"] not in (0, 99):
             V.violation("memcheck abnormal-exit %s rc=%s" % (kind, r["rc"]), "the uninstrumented harness died under valgrind", {"stderr": r["err"][-3000:]})
         if kind == "codec":
             for o in vf.jsonl(r["out"]):
@@ -185,7 +187,7 @@ def main(tier, replay=None):
             if len(samples) < 2:
                 samples.append({"input": o.get("doc", "")[:300], "type": o["type"], "finding": o["violation"]})
         for crash in crashes:
-            codecdrv.add_crash(V, crash, args, "c02 worker %s" % args[3])
+            codecdrv.add_crash(V, crash, args, "c02 worker %s" % args[3], binary)
         for summary in sums:
             apps += int(summary["applications"])
             sibc += int(summary.get("systematic_sibling_cases", 0))
@@ -205,12 +207,12 @@ def main(tier, replay=None):
         samples.append({"note": "no violation; per-parser counters in 'parsers' = [admitted, parsed, fixpoint-confirmed]"})
     never = [k for k, v in parsers.items() if v[1] == 0 and k != "StreamErrorElement"]
     cov = {"evaluations": apps, "distinct_nontrivial": sum(v[2] for v in parsers.values()),
-           "rule": "seed documents lifted from the test-suite, 0-3 DOM mutations each (17 operators: delete/duplicate/reorder/move/re-namespace incl. hostile URIs/strip/empty/hostile numbers and strings/deep nesting/huge text/cross-breeding/rename/unknown children/many siblings/sibling from the same vocabulary), plus a systematic pass that gives every element of every seed document a sibling from its own namespace's vocabulary (1 quick / 6 thorough per element); "
+           "rule": "seed documents lifted from the test-suite, 0-3 DOM mutations each (18 operators: delete/duplicate/reorder/move/re-namespace incl. hostile URIs/strip/empty/hostile numbers and strings/deep nesting/huge text/cross-breeding/rename/unknown children/many siblings/sibling from the same vocabulary/twin of an element in a foreign namespace), plus a systematic pass that gives every element of every seed document a sibling from its own namespace's vocabulary (1 quick / 6 thorough per element) and a twin in a foreign namespace; "
                    "every registered parser applied to every element its own type check admits (parsers without a type check to all); distinct_nontrivial = applications whose output was re-parsed and confirmed a fixpoint",
            "mutated_elements": cases, "systematic_sibling_cases": sibc, "parsers": parsers, "mutation_operators": ops, "parsers_that_never_parsed": never, "samples": samples,
            "memcheck_sample": dict(mc, rule="the codec workload (other cases than the ASan run) and the setter-built objects of C01 on an uninstrumented -O1 build under valgrind memcheck: any uninitialised-value use or invalid access is a violation"),
            "connected_client": dict(live, rule="mutated stanzas (same mutators; payload seeds wrapped into message/presence/iq of every type; from/to rewritten to own/server/contact/room addresses half of the time) sent by the scripted server to a logged-in "
                                               "QXmppClient with %d managers under ASan/UBSan, 20 per ping fence; a failed batch is re-run stanza by stanza in fresh sessions" % (len(LIVE_MANAGERS) + 4))}
-    floors = {"applications": apps > 1000, "parsers_reached": (len(never) == 0) if tier != "quick" else (len(never) <= 0.1 * len(parsers)), "all_operators_used": len(ops) == 17, "memcheck_ran": mc.get("memcheck_parser_applications", 0) > 100 and mc.get("memcheck_setter_field_states", 0) > 100, "live_stanzas_survived": live.get("stanzas_survived", 0) >= 0.8 * max(1, live.get("stanzas_sent", 0))}
+    floors = {"applications": apps > 1000, "parsers_reached": (len(never) == 0) if tier != "quick" else (len(never) <= 0.1 * len(parsers)), "all_operators_used": len(ops) == 18, "memcheck_ran": mc.get("memcheck_parser_applications", 0) > 100 and mc.get("memcheck_setter_field_states", 0) > 100, "live_stanzas_survived": live.get("stanzas_survived", 0) >= 0.8 * max(1, live.get("stanzas_sent", 0))}
     V.finish(cov, "exploration", ["Qt's XML reader/writer and DOM are trusted (well-formedness is judged with them)", "nesting depth <= 2000 and text <= 1 MiB",
                                   "uninitialised reads are covered only by the memcheck sample (quick: ~400 mutated elements + one pass over the setter-built objects)"], floors)
